@@ -1651,6 +1651,49 @@ fn duration_overflows(v: &Value) -> bool {
     }
 }
 
+/// what a well-formed termination configuration asks for, in the token format of `enc_term_real`, read
+/// from the JSON independently of the builder (`None`: not a shape this reader knows — no verdict)
+fn expected_term_tokens(v: &Value, out: &mut Vec<String>) -> Option<()> {
+    let m = v.as_object()?;
+    let ty = m.get("type")?.as_str()?.to_lowercase();
+    match ty.as_str() {
+        "iterations" => {
+            let l = m.get("limit")?.as_u64()?;
+            out.extend(["it".into(), l.to_string()]);
+        }
+        "solution_size" => {
+            let l = m.get("limit")?.as_u64()?;
+            out.extend(["sz".into(), l.to_string()]);
+        }
+        "query_runtime" => {
+            let text = m.get("limit")?.as_str()?;
+            let parts: Vec<&str> = text.split(':').collect();
+            if parts.len() != 3 || parts.iter().any(|p| p.is_empty() || !p.bytes().all(|b| b.is_ascii_digit())) {
+                return None;
+            }
+            let h: u128 = parts[0].parse().ok()?;
+            let mi: u128 = parts[1].parse().ok()?;
+            let se: u128 = parts[2].parse().ok()?;
+            let secs = h * 3600 + mi * 60 + se;
+            if secs > u64::MAX as u128 {
+                return None;
+            }
+            let f = m.get("frequency")?.as_u64()?;
+            out.extend(["rt".into(), (secs * 1_000_000_000).to_string(), f.to_string()]);
+        }
+        "combined" => {
+            let ms = m.get("models")?.as_array()?;
+            out.push("cb".into());
+            out.push(ms.len().to_string());
+            for x in ms {
+                expected_term_tokens(x, out)?;
+            }
+        }
+        _ => return None,
+    }
+    Some(())
+}
+
 fn op_term(ctx: &mut Ctx, idx: usize, rng: &mut Rng, corpus: Option<Value>) {
     let mut expect = Expect::Ok;
     let cfg = match corpus {
@@ -1734,6 +1777,11 @@ fn op_term(ctx: &mut Ctx, idx: usize, rng: &mut Rng, corpus: Option<Value>) {
             ctx.emit(idx, case.clone(), format!("ok {}", o.join(" ")));
             ctx.nontrivial(&case);
             verdict(ctx, idx, "TerminationModelBuilder", expect, true, None, &what);
+            // the built model holds exactly the configured numbers: h*3600 + m*60 + s seconds, the counts as given
+            let mut want = vec![];
+            if expected_term_tokens(&cfg, &mut want).is_some() && want != o {
+                ctx.fail(idx, "termination_builder/wrong-value", format!("{} was built as {:?} (expected {})", cfg, t, want.join(" ")));
+            }
             if neg {
                 ctx.fail(idx, "termination_builder/negative-value-accepted", format!("{} was built as {:?}", cfg, t));
             }
